@@ -160,6 +160,23 @@ def rxShow (e : Ep) (sid : Nat) (r : Rcvr × RxObs) : Ep × String :=
   | (_, .flowControl) => (e, "err=FlowControl")
   | (_, .finalSize) => (e, "err=FinalSize")
 
+/-- `Reader::poll_next` on stream `sidS`. -/
+def nextS (e : Ep) (sidS theirs : String) : Ep × Option String :=
+  let cmp (e' : Ep) (mine : String) : Ep × Option String := if mine == theirs then (e', none) else (e', some mine)
+  match sidS.toNat? with
+  | some sid =>
+    match lookup e.rcv sid with
+    | none => (e, some "BAD next: unknown stream")
+    | some h =>
+      let (h', o) := h.next
+      let e' := { e with rcv := update e.rcv sid h' }
+      match o with
+      | .half .pending => cmp e' "pending"
+      | .half (.read n none) => cmp e' s!"n={n}"
+      | .half (.read n (some m)) => cmp e' s!"n={n} frames=MSD:{sid}:{m}"
+      | .resetErr => cmp e' "err"
+  | none => (e, some "BAD next")
+
 def stepS (e : Ep) (op obs : List String) : Ep × Option String :=
   let theirs := " ".intercalate obs
   let cmp (e' : Ep) (mine : String) : Ep × Option String := if mine == theirs then (e', none) else (e', some mine)
@@ -334,6 +351,7 @@ def stepS (e : Ep) (op obs : List String) : Ep × Option String :=
     | _, _ => (e, some "BAD reset")
   | [op, sidS] =>
     if op == "rstack" then cmp e "ok" else
+    if op == "next" then nextS e sidS theirs else
     if op == "cancel" || op == "stopsending" then
       match sidS.toNat? with
       | some sid =>
